@@ -5,6 +5,7 @@ CONSTANTS
   SinGrid <- MC_SinQuick
   MaxDepth = 4
   Bug = "qtwopi"
+  MaxRetarget = 1
   Emit = FALSE
 INVARIANT TypeOK
 INVARIANT RouteAgreement
